@@ -49,7 +49,7 @@ MANIFEST = {
             'scipy.stats.norm are assumed contracts (sanity-tested each run); numerical equality with GPy for hyper-parameters reached by optimisation '
             'is NOT proved (bounded stand-in only). The fast path is specified for a single query row (as used during sampling). Prior log density '
             'assumed in [-inf, +inf). Floats read as reals in the proof tiers (log(cdf) and logcdf are the same function there); IEEE tags only for '
-            '-inf/+inf/nan; the double-precision behaviour of the log density in the tails is bounded-only, that of the gradient below z = -30 is not checked.',
+            '-inf/+inf/nan; the double-precision behaviour of the log density in the tails is bounded-only, that of the gradient likewise (bounded stand-in over z in [-1000, 40]).',
     'technique': 'deductive: loop-invariant and path-wise VCs from the real AST (pyvc, z3/cvc5), ghost-state representation invariant over stub objects '
                  '+ computer algebra on the extracted expressions (sympy); bounded stand-in: seeded native scripts (update / optimize / is_sampling '
                  'interleavings, dims 1-3; one-surrogate histories with re-visited points; thresholds placed at z = -1000 .. 40) against GPy and an independent '
@@ -99,10 +99,8 @@ NOT_PROVED = [
     'attributes the AST scan finds; state hidden outside self (module globals, closures, the GPy object) is bounded only',
     'inside the bounds the log density equals log Phi(..) + log prior IN DOUBLE PRECISION: bounded only (tail stand-in, z in [-1000, 40], dims 1-2, relative '
     'tolerance 1e-9 slow path / 1e-4 fast path); the proof tiers read floats as reals',
-    'its gradient is the derivative of that log density IN DOUBLE PRECISION for z < -30: not checked. On the unchanged tree '
-    '_gradient_unnormalized_loglikelihood evaluates pdf(z)/cdf(z), which is 0/0 = nan for z < about -38.6 and -inf around z = -38 at in-bounds points where '
-    'the derivative is finite (reported to the lead as a defect with a one-line repair: exp(norm.logpdf(z) - norm.logcdf(z))); bounded/c10.py '
-    'GRAD_TAIL_ZMIN = -30 is the only thing that keeps it out of the tail stand-in',
+    'its gradient is the derivative of that log density IN DOUBLE PRECISION: bounded only (tail stand-in, z in [-1000, 40]; the unfixed tree '
+    'returned nan / -inf for z < about -38 - pdf(z)/cdf(z) = 0/0 - and was repaired in /repo: fix f1afb5b, see KNOWN_FINDINGS.jsonl)',
     'its gradient is the derivative of that log density: proved for the likelihood term at the listed shapes (CAS); the prior\'s gradient_logpdf is a '
     'numerical gradient outside this property (C08); scatter of gradient rows for n > 2 rows is bounded only',
 ]
